@@ -290,3 +290,991 @@ Proof.
       * apply SetSame. reflexivity.
       * intros x Hx. unfold registered_once; proj. eapply SetRO; [|exact Hx]. exact C.
 Qed.
+
+Ltac dI I := destruct I as [c_nodup0 c_count0 c_max0 c_conn0 c_active_ex0 c_live_ex0 c_live_nodup0 c_wg0 c_acc0 c_reaper0 c_tick0 c_stops0].
+
+Lemma inv_advance s d : Inv s -> Inv (set_now s (now s + d)).
+Proof.
+  intros I. dI I. constructor; proj; try assumption.
+  - intros c k E. pose proof (c_conn0 _ _ E) as (B1 & B2 & B3 & B4 & B5 & B6 & B7).
+    unfold conn_ok. proj. repeat split; auto; try tauto; try lia.
+  - unfold reaper_ok in *. proj. destruct (reaper s); auto. destruct c_reaper0 as (R1 & R2 & R3).
+    split; [lia|]. split; auto.
+  - destruct c_tick0. split; [lia|auto].
+Qed.
+
+(* Accept: a fresh connection enters the accept loop's hands *)
+Lemma inv_accept s c ok : Inv s -> acc s = ALoop -> conns s c = None ->
+  Inv (set_acc (set_conn s c (new_conn ok)) (AHave c)).
+Proof.
+  intros I A E.
+  assert (NA : ~ In c (active s)) by (intros H; destruct (c_active_ex _ I _ H); congruence).
+  assert (NL : ~ In c (live s)) by (intros H; destruct (c_live_ex _ I _ H); congruence).
+  assert (Old : forall x kx, fset (conns s) c (new_conn ok) x = Some kx -> (x = c /\ kx = new_conn ok) \/ (x <> c /\ conns s x = Some kx))
+    by (intros; apply fset_cases; assumption).
+  assert (RO : forall x, registered_once s x -> registered_once (set_acc (set_conn s c (new_conn ok)) (AHave c)) x).
+  { intros x (kx & Ex & Cx). exists kx. proj. rewrite fset_neq; [auto|]. intros ->. congruence. }
+  dI I. constructor; proj; try assumption.
+  - intros x kx Ex. destruct (Old _ _ Ex) as [[-> ->]|[Hne Ex']].
+    + unfold conn_ok, acc_holds. proj. cbn. repeat split; auto; try lia; try tauto; try discriminate.
+    + pose proof (c_conn0 _ _ Ex') as (B1 & B2 & B3 & B4 & B5 & B6 & B7).
+      unfold conn_ok. proj. repeat split; auto; try tauto.
+      destruct (k_pc kx); auto. destruct B7 as [[H|[H|H]] _]; rewrite A in H; discriminate.
+  - intros x Hx. rewrite fset_neq; [auto|]. intros ->. contradiction.
+  - intros x Hx. rewrite fset_neq; [auto|]. intros ->. contradiction.
+  - unfold acc_live in *. proj. rewrite A in c_wg0. exact c_wg0.
+  - intros x [H|[H|H]]; try discriminate. injection H as <-. rewrite fset_eq. eauto.
+  - unfold reaper_ok in *. proj. destruct (reaper s); auto. destruct c_reaper0 as (R1 & R2 & R3).
+    repeat split; auto. intros x kx Hx Ex. rewrite fset_neq in Ex; [eauto|]. intros ->. contradiction.
+  - destruct c_tick0 as [T1 T2]. split; auto. intros x kx Hx Ex. rewrite fset_neq in Ex; [eauto|]. intros ->. contradiction.
+  - intros j p Ej. pose proof (c_stops0 _ _ Ej) as Hs. unfold stop_ok in *. destruct p; auto.
+    + destruct Hs as (S1 & S2 & S3). repeat split; auto.
+    + intros x Hx. destruct (Hs x Hx). split; auto.
+    + destruct Hs as [Hs W]. split; [|exact W]. intros x Hx. destruct (Hs x Hx). split; auto.
+    + intros x Hx. destruct (Hs x Hx). split; auto.
+Qed.
+
+(* ---------- monotonicity of the thread-local parts ---------- *)
+Lemma stop_ok_mono s s' p : stop_ok s p ->
+  (forall x, registered_once s x -> registered_once s' x) ->
+  (forall x, registered_once s x -> ~ In x (active s) -> ~ In x (active s')) ->
+  (wg s = 0 -> wg s' = 0) -> stop_ok s' p.
+Proof.
+  intros Hs RO NA W. unfold stop_ok in *. destruct p; auto.
+  - destruct Hs as (S1 & S2 & S3). repeat split; auto. intros x Hx. destruct (S3 x Hx); auto.
+  - intros x Hx. destruct (Hs x Hx). split; auto.
+  - destruct Hs as [Hs W0]. split; [|auto]. intros x Hx. destruct (Hs x Hx). split; auto.
+  - intros x Hx. destruct (Hs x Hx). split; auto.
+Qed.
+
+Definition last_mono (s s' : state) : Prop :=
+  forall x k', In x (active s') -> conns s' x = Some k' ->
+    (exists k, In x (active s) /\ conns s x = Some k /\ k_last k <= k_last k') \/ now s <= k_last k'.
+
+Lemma reaper_ok_mono s s' : reaper_ok s -> reaper s' = reaper s -> now s <= now s' -> idle s' = idle s ->
+  (forall x, registered_once s x -> registered_once s' x) -> last_mono s s' -> reaper_ok s'.
+Proof.
+  intros Hr Er Hn Hi RO LM. unfold reaper_ok in *. rewrite Er. destruct (reaper s); auto.
+  destruct Hr as (R1 & R2 & R3). repeat split; auto; [lia|].
+  intros x k' Hx Ex. destruct (LM x k' Hx Ex) as [(k & Hk & Ek & Lk)|Hl].
+  - destruct (R3 x k Hk Ek); [left; rewrite Hi; lia|right; assumption].
+  - left. lia.
+Qed.
+
+Lemma tick_mono s s' :
+  (tickT s <= now s /\ forall c k, In c (active s) -> conns s c = Some k -> tickT s <= k_last k + idle s) ->
+  tickT s' = tickT s -> now s <= now s' -> idle s' = idle s -> last_mono s s' ->
+  (tickT s' <= now s' /\ forall c k, In c (active s') -> conns s' c = Some k -> tickT s' <= k_last k + idle s').
+Proof.
+  intros [T1 T2] Et Hn Hi LM. rewrite Et, Hi. split; [lia|].
+  intros x k' Hx Ex. destruct (LM x k' Hx Ex) as [(k & Hk & Ek & Lk)|Hl].
+  - specialize (T2 x k Hk Ek). lia.
+  - lia.
+Qed.
+
+Lemma last_mono_refl_conns s s' : active s' = active s -> conns s' = conns s -> last_mono s s'.
+Proof.
+  intros Ea Ec x k' Hx Ex. left. rewrite Ea in Hx. rewrite Ec in Ex. exists k'. repeat split; auto. lia.
+Qed.
+
+(* generic: a step that changes acc / wg / live and one connection's pc (not cnt, uncnt, last, once), given the new conn_ok facts *)
+Lemma inv_rebuild s s' :
+  Inv s ->
+  active s' = active s -> count s' = count s -> maxc s' = maxc s -> idle s' = idle s -> now s' = now s ->
+  reaper s' = reaper s -> stops s' = stops s -> tickT s' = tickT s ->
+  (forall x k', conns s' x = Some k' -> exists k, conns s x = Some k /\ k_cnt k' = k_cnt k /\ k_last k' = k_last k) ->
+  (forall x k, conns s x = Some k -> exists k', conns s' x = Some k' /\ k_cnt k' = k_cnt k) ->
+  (forall x k', conns s' x = Some k' -> conn_ok s' x k') ->
+  (forall x, In x (live s') -> exists k, conns s' x = Some k) ->
+  NoDup (live s') ->
+  wg s' = b2n (acc_live s') + b2n (reaper_live s') + N.of_nat (length (live s')) ->
+  (forall x, acc_holds (acc s') x -> exists k, conns s' x = Some k /\ k_pc k = KPre) ->
+  (wg s = 0 -> wg s' = 0) ->
+  Inv s'.
+Proof.
+  intros I Ea Ec Em Ei En Er Es Et Back Fwd Hconn Hlive Hnd Hwg Hacc Hw0.
+  assert (RO : forall x, registered_once s x -> registered_once s' x).
+  { intros x (k & Ex & Cx). destruct (Fwd _ _ Ex) as (k' & E' & C'). exists k'. split; [auto|congruence]. }
+  assert (LM : last_mono s s').
+  { intros x k' Hx Ex. left. destruct (Back _ _ Ex) as (k & Ek & _ & Lk). exists k. rewrite Ea in Hx. repeat split; auto. lia. }
+  dI I. constructor.
+  - rewrite Ea. assumption.
+  - rewrite Ea, Ec. assumption.
+  - rewrite Em, Ec. assumption.
+  - assumption.
+  - intros x Hx. rewrite Ea in Hx. destruct (c_active_ex0 _ Hx) as (k & Ek). destruct (Fwd _ _ Ek) as (k' & E' & _). eauto.
+  - assumption.
+  - assumption.
+  - assumption.
+  - assumption.
+  - apply (reaper_ok_mono s s'); auto. lia.
+  - apply (tick_mono s s'); auto. lia.
+  - intros j p Ej. rewrite Es in Ej. apply (stop_ok_mono s s' p (c_stops0 _ _ Ej) RO); [intros x _; rewrite Ea; auto|exact Hw0].
+Qed.
+
+Lemma acc_holds_inj a c x : a = AHave c \/ a = AFiltered c \/ a = ARegistered c -> acc_holds a x -> x = c.
+Proof. unfold acc_holds. intros [->|[->| ->]] [H|[H|H]]; congruence. Qed.
+
+Lemma inv_filter_ok s c k : Inv s -> acc s = AHave c -> conns s c = Some k -> Inv (set_acc s (AFiltered c)).
+Proof.
+  intros I A E. apply (inv_rebuild s); auto; proj; try (exact (c_live_nodup _ I)); try (exact (c_live_ex _ I)).
+  - intros x k' Ex. eauto.
+  - intros x k0 Ex. eauto.
+  - intros x k' Ex. pose proof (c_conn _ I _ _ Ex) as (B1 & B2 & B3 & B4 & B5 & B6 & B7).
+    unfold conn_ok. proj. repeat split; auto; try tauto.
+    destruct (k_pc k') eqn:P; auto. destruct B7 as [B7 B8]. rewrite A in B7, B8.
+    assert (x = c) by (eapply acc_holds_inj; [left; reflexivity|exact B7]). subst x.
+    split; [right; left; reflexivity|]. split; [intros H; apply B8 in H; discriminate|discriminate].
+  - pose proof (c_wg _ I) as W. unfold acc_live in *. proj. rewrite A in W. exact W.
+  - intros x Hx. assert (x = c) by (eapply acc_holds_inj; [right; left; reflexivity|exact Hx]). subst x.
+    apply (c_acc _ I). rewrite A. left. reflexivity.
+Qed.
+
+Lemma inv_filter_reject s c k : Inv s -> acc s = AHave c -> conns s c = Some k ->
+  Inv (set_acc (set_conn s c (k_close (k_with_pc k KRejected))) ALoop).
+Proof.
+  intros I A E.
+  pose proof (c_conn _ I _ _ E) as (B1 & B2 & B3 & B4 & B5 & B6 & B7).
+  destruct (c_acc _ I c) as (k0 & E0 & P0); [rewrite A; left; reflexivity|].
+  assert (k0 = k) by congruence. subst k0. rewrite P0 in B7. destruct B7 as [B7 B8]. rewrite A in B8.
+  assert (C0 : k_cnt k = 0) by (destruct (N.eq_dec (k_cnt k) 1) as [H|H]; [apply B8 in H; discriminate|lia]).
+  apply (inv_rebuild s); auto; proj; try (exact (c_live_nodup _ I)).
+  - intros x k' Ex. apply fset_cases in Ex. destruct Ex as [[-> ->]|[Hne Ex]]; eauto.
+  - intros x k1 Ex. destruct (N.eq_dec x c) as [->|Hne]; [rewrite fset_eq|rewrite fset_neq by exact Hne]; eauto.
+    exists (k_close (k_with_pc k KRejected)). split; [reflexivity|]. cbn. congruence.
+  - intros x k' Ex. apply fset_cases in Ex. destruct Ex as [[-> ->]|[Hne Ex]].
+    + unfold conn_ok, k_live in *. proj. cbn. rewrite P0 in B6. repeat split; auto; try tauto.
+    + pose proof (c_conn _ I _ _ Ex) as (D1 & D2 & D3 & D4 & D5 & D6 & D7).
+      unfold conn_ok. proj. repeat split; auto; try tauto.
+      destruct (k_pc k') eqn:P; auto. destruct D7 as [D7 D8]. rewrite A in D7.
+      exfalso. apply Hne. eapply acc_holds_inj; [left; reflexivity|exact D7].
+  - intros x Hx. destruct (c_live_ex _ I _ Hx). destruct (N.eq_dec x c) as [->|Hne]; [rewrite fset_eq|rewrite fset_neq by exact Hne]; eauto.
+  - pose proof (c_wg _ I) as W. unfold acc_live in *. proj. rewrite A in W. exact W.
+  - intros x [H|[H|H]]; discriminate.
+Qed.
+
+Lemma acc_pre_facts s c k : Inv s -> acc_holds (acc s) c -> conns s c = Some k ->
+  k_pc k = KPre /\ (k_cnt k = 1 <-> acc s = ARegistered c) /\ ~ In c (live s).
+Proof.
+  intros I A E. destruct (c_acc _ I c A) as (k0 & E0 & P0). assert (k0 = k) by congruence. subst k0.
+  pose proof (c_conn _ I _ _ E) as (B1 & B2 & B3 & B4 & B5 & B6 & B7). rewrite P0 in B7. destruct B7 as [_ B8].
+  repeat split; auto; try apply B8. intros H. apply B6 in H. unfold k_live in H. rewrite P0 in H. discriminate.
+Qed.
+
+Lemma inv_register_reject s c k : Inv s -> acc s = AFiltered c -> conns s c = Some k ->
+  Inv (set_acc (set_conn s c (k_close (k_with_pc k KRejected))) ALoop).
+Proof.
+  intros I A E.
+  pose proof (c_conn _ I _ _ E) as (B1 & B2 & B3 & B4 & B5 & B6 & B7).
+  destruct (acc_pre_facts s c k I) as (P0 & B8 & NL); [rewrite A; right; left; reflexivity|exact E|].
+  rewrite A in B8.
+  assert (C0 : k_cnt k = 0) by (destruct (N.eq_dec (k_cnt k) 1) as [H|H]; [apply B8 in H; discriminate|lia]).
+  apply (inv_rebuild s); auto; proj; try (exact (c_live_nodup _ I)).
+  - intros x k' Ex. apply fset_cases in Ex. destruct Ex as [[-> ->]|[Hne Ex]]; eauto.
+  - intros x k1 Ex. destruct (N.eq_dec x c) as [->|Hne]; [rewrite fset_eq|rewrite fset_neq by exact Hne]; eauto.
+    exists (k_close (k_with_pc k KRejected)). split; [reflexivity|]. cbn. congruence.
+  - intros x k' Ex. apply fset_cases in Ex. destruct Ex as [[-> ->]|[Hne Ex]].
+    + unfold conn_ok, k_live in *. proj. cbn. rewrite P0 in B6. repeat split; auto; try tauto.
+    + pose proof (c_conn _ I _ _ Ex) as (D1 & D2 & D3 & D4 & D5 & D6 & D7).
+      unfold conn_ok. proj. repeat split; auto; try tauto.
+      destruct (k_pc k') eqn:P; auto. destruct D7 as [D7 D8]. rewrite A in D7.
+      exfalso. apply Hne. eapply acc_holds_inj; [right; left; reflexivity|exact D7].
+  - intros x Hx. destruct (c_live_ex _ I _ Hx). destruct (N.eq_dec x c) as [->|Hne]; [rewrite fset_eq|rewrite fset_neq by exact Hne]; eauto.
+  - pose proof (c_wg _ I) as W. unfold acc_live in *. proj. rewrite A in W. exact W.
+  - intros x [H|[H|H]]; discriminate.
+Qed.
+
+Lemma inv_register s c k : Inv s -> acc s = AFiltered c -> conns s c = Some k ->
+  ((0 <? maxc s) && (maxc s <=? count s))%Z = false ->
+  Inv (set_acc (set_active (set_conn s c (k_registered k (now s))) (c :: active s) (count s + 1)%Z) (ARegistered c)).
+Proof.
+  intros I A E Lim.
+  pose proof (c_conn _ I _ _ E) as (B1 & B2 & B3 & B4 & B5 & B6 & B7).
+  destruct (acc_pre_facts s c k I) as (P0 & B8 & NL); [rewrite A; right; left; reflexivity|exact E|].
+  rewrite A in B8.
+  assert (C0 : k_cnt k = 0) by (destruct (N.eq_dec (k_cnt k) 1) as [H|H]; [apply B8 in H; discriminate|lia]).
+  assert (NA : ~ In c (active s)) by (intros H; apply B3 in H; lia).
+  set (k' := k_registered k (now s)).
+  set (s' := set_acc (set_active (set_conn s c k') (c :: active s) (count s + 1)%Z) (ARegistered c)).
+  assert (RO : forall x, registered_once s x -> registered_once s' x).
+  { intros x (kx & Ex & Cx). exists kx. unfold s'. proj. rewrite fset_neq; [auto|]. intros ->. assert (kx = k) by congruence. subst. lia. }
+  assert (LM : last_mono s s').
+  { intros x kx Hx Ex. unfold s' in Hx, Ex. proj_in Hx. proj_in Ex. apply fset_cases in Ex. destruct Ex as [[-> ->]|[Hne Ex]].
+    - right. cbn. lia.
+    - left. exists kx. destruct Hx as [Hx|Hx]; [congruence|]. repeat split; auto. lia. }
+  assert (I0 := I). dI I. constructor; unfold s'; proj.
+  - constructor; assumption.
+  - cbn [length]. lia.
+  - intros Hm. apply andb_false_iff in Lim. destruct Lim as [L|L]; lia.
+  - intros x kx Ex. apply fset_cases in Ex. destruct Ex as [[-> ->]|[Hne Ex]].
+    + unfold conn_ok, k_live, acc_holds in *. proj. cbn. rewrite P0 in *. repeat split; auto; try lia; try tauto.
+    + pose proof (c_conn0 _ _ Ex) as (D1 & D2 & D3 & D4 & D5 & D6 & D7).
+      assert (AI : In x (c :: active s) <-> In x (active s))
+        by (cbn; split; [intros [Hc|Hc]; [congruence|auto]|auto]).
+      unfold conn_ok. proj. rewrite AI. repeat split; auto; try tauto.
+      destruct (k_pc kx) eqn:P; auto. destruct D7 as [D7 D8]. rewrite A in D7.
+      exfalso. apply Hne. eapply acc_holds_inj; [right; left; reflexivity|exact D7].
+  - intros x [<-|Hx]; [rewrite fset_eq; eauto|]. destruct (N.eq_dec x c) as [->|Hne]; [rewrite fset_eq|rewrite fset_neq by exact Hne]; eauto.
+  - intros x Hx. destruct (N.eq_dec x c) as [->|Hne]; [rewrite fset_eq|rewrite fset_neq by exact Hne]; eauto.
+  - assumption.
+  - unfold acc_live in *. proj. rewrite A in c_wg0. exact c_wg0.
+  - intros x Hx. assert (x = c) by (eapply acc_holds_inj; [right; right; reflexivity|exact Hx]). subst x.
+    rewrite fset_eq. exists k'. split; [reflexivity|]. exact P0.
+  - apply (reaper_ok_mono s s'); auto; unfold s'; proj; try reflexivity; lia.
+  - apply (tick_mono s s'); auto; unfold s'; proj; try reflexivity; lia.
+  - intros j p Ej. apply (stop_ok_mono s s' p (c_stops0 _ _ Ej) RO).
+    + intros x (kx & Ex & Cx) Hn. unfold s'. proj. intros [<-|H]; [|contradiction]. assert (kx = k) by congruence. subst. lia.
+    + unfold s'. proj. auto.
+Qed.
+
+Ltac wgs W :=
+  unfold acc_live, reaper_live, b2n in *; proj;
+  repeat match goal with
+  | H : acc _ = _ |- _ => rewrite H in W
+  | H : reaper _ = _ |- _ => rewrite H in W
+  end; cbv beta iota in W |- *; try lia.
+
+Lemma inv_spawn s c k : Inv s -> acc s = ARegistered c -> conns s c = Some k ->
+  Inv (set_acc (set_wg (set_conn s c (k_with_pc k KServing)) (wg s + 1) (c :: live s)) ALoop).
+Proof.
+  intros I A E.
+  pose proof (c_conn _ I _ _ E) as (B1 & B2 & B3 & B4 & B5 & B6 & B7).
+  destruct (acc_pre_facts s c k I) as (P0 & B8 & NL); [rewrite A; right; right; reflexivity|exact E|].
+  rewrite A in B8. assert (C1 : k_cnt k = 1) by (apply B8; reflexivity).
+  apply (inv_rebuild s); auto; proj.
+  - intros x k' Ex. apply fset_cases in Ex. destruct Ex as [[-> ->]|[Hne Ex]]; eauto.
+  - intros x k1 Ex. destruct (N.eq_dec x c) as [->|Hne]; [rewrite fset_eq|rewrite fset_neq by exact Hne]; eauto.
+    exists (k_with_pc k KServing). split; [reflexivity|]. cbn. congruence.
+  - intros x k' Ex. apply fset_cases in Ex. destruct Ex as [[-> ->]|[Hne Ex]].
+    + unfold conn_ok, k_live in *. proj. cbn. repeat split; auto; try tauto.
+    + pose proof (c_conn _ I _ _ Ex) as (D1 & D2 & D3 & D4 & D5 & D6 & D7).
+      assert (LI : In x (c :: live s) <-> In x (live s))
+        by (cbn; split; [intros [Hc|Hc]; [congruence|auto]|auto]).
+      unfold conn_ok. proj. rewrite LI. repeat split; auto; try tauto.
+      destruct (k_pc k') eqn:P; auto. destruct D7 as [D7 D8]. rewrite A in D7.
+      exfalso. apply Hne. eapply acc_holds_inj; [right; right; reflexivity|exact D7].
+  - intros x [<-|Hx]; [rewrite fset_eq; eauto|]. destruct (c_live_ex _ I _ Hx).
+    destruct (N.eq_dec x c) as [->|Hne]; [rewrite fset_eq|rewrite fset_neq by exact Hne]; eauto.
+  - constructor; [exact NL|exact (c_live_nodup _ I)].
+  - pose proof (c_wg _ I) as W. unfold acc_live, reaper_live, b2n in *. proj. rewrite A in W. cbn [length]. rewrite Nat2N.inj_succ. cbv beta iota in W |- *. lia.
+  - intros x [H|[H|H]]; discriminate.
+  - intros W0. pose proof (c_wg _ I) as W. unfold acc_live, b2n in W. rewrite A in W. cbv beta iota in W. lia.
+Qed.
+
+Lemma inv_accept_exit s : Inv s -> acc s = ALoop -> Inv (set_wg (set_acc s AExited) (wg s - 1) (live s)).
+Proof.
+  intros I A. apply (inv_rebuild s); auto; proj; try (exact (c_live_nodup _ I)); try (exact (c_live_ex _ I)).
+  - intros x k' Ex. eauto.
+  - intros x k0 Ex. eauto.
+  - intros x k' Ex. pose proof (c_conn _ I _ _ Ex) as (B1 & B2 & B3 & B4 & B5 & B6 & B7).
+    unfold conn_ok. proj. repeat split; auto; try tauto.
+    destruct (k_pc k') eqn:P; auto. destruct B7 as [[H|[H|H]] _]; rewrite A in H; discriminate.
+  - pose proof (c_wg _ I) as W. wgs W.
+  - intros x [H|[H|H]]; discriminate.
+  - intros W0. lia.
+Qed.
+
+Lemma inv_activity s c k : Inv s -> conns s c = Some k -> Inv (set_conn s c (k_with_last k (now s))).
+Proof.
+  intros I E.
+  pose proof (c_conn _ I _ _ E) as (B1 & B2 & B3 & B4 & B5 & B6 & B7).
+  set (k' := k_with_last k (now s)).
+  assert (RO : forall x, registered_once s x -> registered_once (set_conn s c k') x).
+  { intros x (kx & Ex & Cx). unfold registered_once. proj. destruct (N.eq_dec x c) as [->|Hne].
+    - rewrite fset_eq. exists k'. split; [reflexivity|]. cbn. congruence.
+    - rewrite fset_neq by exact Hne. eauto. }
+  assert (LM : last_mono s (set_conn s c k')).
+  { intros x kx Hx Ex. proj_in Hx. proj_in Ex. apply fset_cases in Ex. destruct Ex as [[-> ->]|[Hne Ex]].
+    - right. cbn. lia.
+    - left. exists kx. repeat split; auto. lia. }
+  assert (I0 := I). dI I. constructor; proj; try assumption.
+  - intros x kx Ex. apply fset_cases in Ex. destruct Ex as [[-> ->]|[Hne Ex]]; [|exact (c_conn0 _ _ Ex)].
+    unfold conn_ok, k_live in *. proj. cbn. repeat split; auto; try tauto; try lia.
+  - intros x Hx. destruct (N.eq_dec x c) as [->|Hne]; [rewrite fset_eq; eauto|rewrite fset_neq by exact Hne; auto].
+  - intros x Hx. destruct (N.eq_dec x c) as [->|Hne]; [rewrite fset_eq; eauto|rewrite fset_neq by exact Hne; auto].
+  - intros x Hx. destruct (c_acc0 _ Hx) as (kx & Ex & Px). destruct (N.eq_dec x c) as [->|Hne].
+    + rewrite fset_eq. exists k'. split; [reflexivity|]. cbn. congruence.
+    + rewrite fset_neq by exact Hne. eauto.
+  - apply (reaper_ok_mono s (set_conn s c k')); auto; proj; try reflexivity; lia.
+  - apply (tick_mono s (set_conn s c k')); auto; proj; try reflexivity; lia.
+  - intros j p Ej. apply (stop_ok_mono s (set_conn s c k') p (c_stops0 _ _ Ej) RO); auto.
+Qed.
+
+Lemma inv_exit s c k : Inv s -> conns s c = Some k -> k_pc k = KServing ->
+  Inv (set_conn s c (k_close (k_with_pc k (KUnreg U1)))).
+Proof.
+  intros I E P. pose proof (c_conn _ I _ _ E) as (B1 & B2 & B3 & B4 & B5 & B6 & B7). rewrite P in B7.
+  apply (inv_set_conn_frame s c k); auto; cbn; auto.
+  - unfold k_live. cbn. rewrite P. reflexivity.
+  - rewrite P. discriminate.
+Qed.
+
+Lemma inv_conn_done s c k : Inv s -> conns s c = Some k -> k_pc k = KFin ->
+  Inv (set_wg (set_conn s c (k_with_pc k KDone)) (wg s - 1) (remove_c c (live s))).
+Proof.
+  intros I E P. pose proof (c_conn _ I _ _ E) as (B1 & B2 & B3 & B4 & B5 & B6 & B7). rewrite P in B7.
+  assert (Lc : In c (live s)) by (apply B6; unfold k_live; rewrite P; reflexivity).
+  apply (inv_rebuild s); auto; proj.
+  - intros x k' Ex. apply fset_cases in Ex. destruct Ex as [[-> ->]|[Hne Ex]]; eauto.
+  - intros x k1 Ex. destruct (N.eq_dec x c) as [->|Hne]; [rewrite fset_eq|rewrite fset_neq by exact Hne]; eauto.
+    exists (k_with_pc k KDone). split; [reflexivity|]. cbn. congruence.
+  - intros x k' Ex. apply fset_cases in Ex. destruct Ex as [[-> ->]|[Hne Ex]].
+    + unfold conn_ok, k_live in *. proj. cbn. repeat split; auto; try tauto; try discriminate.
+      intros H. apply remove_c_In in H. tauto.
+    + pose proof (c_conn _ I _ _ Ex) as (D1 & D2 & D3 & D4 & D5 & D6 & D7).
+      assert (LI : In x (remove_c c (live s)) <-> In x (live s)) by (rewrite remove_c_In; tauto).
+      unfold conn_ok. proj. rewrite LI. repeat split; auto; try tauto.
+  - intros x Hx. apply remove_c_In in Hx. destruct Hx as [Hx Hne]. rewrite fset_neq by exact Hne. exact (c_live_ex _ I _ Hx).
+  - apply remove_c_NoDup. exact (c_live_nodup _ I).
+  - pose proof (c_wg _ I) as W. pose proof (remove_c_length c (live s) (c_live_nodup _ I) Lc) as L.
+    wgs W.
+  - intros x Hx. destruct (c_acc _ I _ Hx) as (kx & Ex & Px). destruct (N.eq_dec x c) as [->|Hne].
+    + assert (kx = k) by congruence. subst. congruence.
+    + rewrite fset_neq by exact Hne. eauto.
+  - intros W0. lia.
+Qed.
+
+Lemma inv_reaper_exit s : Inv s -> reaper s = RIdle -> Inv (set_wg (set_reaper s RExited) (wg s - 1) (live s)).
+Proof.
+  intros I R. assert (I0 := I). dI I. constructor; proj; try assumption.
+  - wgs c_wg0.
+  - unfold reaper_ok. proj. exact Logic.I.
+  - intros j p Ej. apply (stop_ok_mono s _ p (c_stops0 _ _ Ej)); auto. proj. lia.
+Qed.
+
+Lemma inv_close_conn s c : Inv s -> Inv (close_conn s c).
+Proof.
+  intros I. unfold close_conn. destruct (conns s c) as [k|] eqn:E; [|exact I].
+  apply (inv_set_conn_frame s c k); auto; cbn; auto.
+  - apply (pc_clause_same s c k); auto.
+  - exact (proj1 (proj2 (proj2 (proj2 (c_conn _ I _ _ E))))).
+Qed.
+Lemma close_conn_frame s c : active (close_conn s c) = active s /\ reaper (close_conn s c) = reaper s /\
+  stops (close_conn s c) = stops s /\ now (close_conn s c) = now s /\ idle (close_conn s c) = idle s /\ wg (close_conn s c) = wg s /\
+  (forall x, registered_once s x -> registered_once (close_conn s c) x) /\
+  (forall x kx, conns (close_conn s c) x = Some kx -> exists k0, conns s x = Some k0 /\ k_last kx = k_last k0).
+Proof.
+  unfold close_conn. destruct (conns s c) as [k|] eqn:E; proj; repeat split; auto.
+  - intros x (kx & Ex & Cx). unfold registered_once. proj. destruct (N.eq_dec x c) as [->|Hne].
+    + rewrite fset_eq. eexists. split; [reflexivity|]. cbn. congruence.
+    + rewrite fset_neq by exact Hne. eauto.
+  - intros x kx Ex. apply fset_cases in Ex. destruct Ex as [[-> ->]|[Hne Ex]]; eauto.
+  - eauto.
+Qed.
+
+Lemma inv_tick s : Inv s -> reaper s = RIdle ->
+  Inv (set_reaper s (RWork (now s) (filter (is_idle s) (active s)) None)).
+Proof.
+  intros I R. apply inv_set_reaper; auto.
+  - unfold reaper_live. proj. rewrite R. reflexivity.
+  - unfold reaper_ok. proj. split; [lia|]. split.
+    + intros c Hc. apply filter_In in Hc. destruct Hc as [Hc _]. destruct (c_active_ex _ I _ Hc) as (k & E).
+      exists k. split; [exact E|]. apply (c_conn _ I _ _ E). exact Hc.
+    + intros c k Hc E. destruct (is_idle s c) eqn:Id.
+      * right. apply filter_In. auto.
+      * left. unfold is_idle in Id. rewrite E in Id. apply N.ltb_ge in Id. lia.
+Qed.
+
+Lemma inv_rtickdone s T : Inv s -> reaper s = RWork T [] None -> Inv (set_tickT (set_reaper s RIdle) T).
+Proof.
+  intros I R. assert (I0 := I). dI I. constructor; proj; try assumption.
+  - wgs c_wg0.
+  - unfold reaper_ok. proj. exact Logic.I.
+  - unfold reaper_ok in c_reaper0. rewrite R in c_reaper0. destruct c_reaper0 as (R1 & R2 & R3).
+    split; [exact R1|]. intros c k Hc E. destruct (R3 c k Hc E) as [H|[]]. exact H.
+Qed.
+
+Lemma inv_rclose s T c todo : Inv s -> reaper s = RWork T (c :: todo) None ->
+  Inv (set_reaper (close_conn s c) (RWork T (c :: todo) (Some U1))).
+Proof.
+  intros I R. destruct (close_conn_frame s c) as (Fa & Fr & Fs & Fn & Fi & Fw & FRO & FL).
+  apply inv_set_reaper; [apply inv_close_conn; exact I| |].
+  - unfold reaper_live. proj. rewrite Fr, R. reflexivity.
+  - pose proof (c_reaper _ I) as Hr. unfold reaper_ok in *. proj. rewrite R in Hr. destruct Hr as (R1 & R2 & R3).
+    rewrite Fn, Fa, Fi. split; [exact R1|split].
+    + intros x Hx. apply FRO. auto.
+    + intros x kx Hx Ex. destruct (FL _ _ Ex) as (k0 & E0 & L0). rewrite L0. eauto.
+Qed.
+
+(* a thread's unregister sub-step on the head of its work list *)
+Lemma inv_unreg_reaper s T c todo u s1 nu : Inv s -> reaper s = RWork T (c :: todo) (Some u) ->
+  unreg_step s c u = Some (s1, nu) ->
+  Inv (set_reaper s1 (match nu with Some u' => RWork T (c :: todo) (Some u') | None => RWork T todo None end)).
+Proof.
+  intros I R H. pose proof (c_reaper _ I) as Hr. unfold reaper_ok in Hr. rewrite R in Hr. destruct Hr as (R1 & R2 & R3).
+  destruct (unreg_inv s c u s1 nu I (R2 c (or_introl eq_refl)) H) as (I1 & Hn & Er & Es & Hpc & RO).
+  pose proof (c_reaper _ I1) as Hr1. unfold reaper_ok in Hr1. rewrite Er, R in Hr1. destruct Hr1 as (Q1 & Q2 & Q3).
+  apply inv_set_reaper; auto.
+  - unfold reaper_live. proj. rewrite Er, R. destruct nu; reflexivity.
+  - unfold reaper_ok. proj. destruct nu as [u'|]; repeat split; auto.
+    + intros x Hx. apply Q2. right. exact Hx.
+    + intros x kx Hx Ex. destruct (Q3 x kx Hx Ex) as [L|[<-|L]]; auto. exfalso. exact (Hn eq_refl Hx).
+Qed.
+
+Lemma inv_unreg_stop s j sn c todo u s1 nu : Inv s -> stops s j = Some (SWork sn (c :: todo) (Some u)) ->
+  unreg_step s c u = Some (s1, nu) ->
+  Inv (set_stop s1 j (match nu with Some u' => SWork sn (c :: todo) (Some u') | None => SWork sn todo None end)).
+Proof.
+  intros I Ej H. pose proof (c_stops _ I _ _ Ej) as Hs. cbn in Hs. destruct Hs as (S1 & S2 & S3).
+  assert (Rc : registered_once s c) by (apply S1; apply S2; left; reflexivity).
+  destruct (unreg_inv s c u s1 nu I Rc H) as (I1 & Hn & Er & Es & Hpc & RO).
+  rewrite <- Es in Ej. pose proof (c_stops _ I1 _ _ Ej) as Hs1. cbn in Hs1. destruct Hs1 as (Q1 & Q2 & Q3).
+  apply inv_set_stop; auto. destruct nu as [u'|]; cbn; repeat split; auto.
+  - intros x Hx. apply Q2. right. exact Hx.
+  - intros x Hx. destruct (Q3 x Hx) as [[<-|L]|L]; auto.
+Qed.
+
+Lemma inv_unreg_conn s c k u s1 nu k1 : Inv s -> conns s c = Some k -> k_pc k = KUnreg u ->
+  unreg_step s c u = Some (s1, nu) -> conns s1 c = Some k1 ->
+  Inv (set_conn s1 c (k_with_pc k1 (match nu with Some u' => KUnreg u' | None => KFin end))).
+Proof.
+  intros I E P H E1. pose proof (c_conn _ I _ _ E) as (B1 & B2 & B3 & B4 & B5 & B6 & B7). rewrite P in B7.
+  assert (Rc : registered_once s c) by (exists k; auto).
+  destruct (unreg_inv s c u s1 nu I Rc H) as (I1 & Hn & Er & Es & Hpc & RO).
+  destruct (Hpc _ _ E) as (k1' & E1' & P1). assert (k1' = k1) by congruence. subst k1'. rewrite P in P1.
+  pose proof (c_conn _ I1 _ _ E1) as (D1 & D2 & D3 & D4 & D5 & D6 & D7). rewrite P1 in D7.
+  apply (inv_set_conn_frame s1 c k1); auto; cbn; auto.
+  - unfold k_live. cbn. rewrite P1. destruct nu; reflexivity.
+  - rewrite P1. discriminate.
+  - destruct nu as [u'|]; auto. split; [exact D7|]. apply (not_active_uncounted s1 c k1); auto.
+Qed.
+
+Lemma inv_stop_close s j sn c todo : Inv s -> stops s j = Some (SWork sn (c :: todo) None) ->
+  Inv (set_stop (close_conn s c) j (SWork sn (c :: todo) (Some U1))).
+Proof.
+  intros I Ej. destruct (close_conn_frame s c) as (Fa & Fr & Fs & Fn & Fi & Fw & FRO & FL).
+  apply inv_set_stop; [apply inv_close_conn; exact I|].
+  pose proof (c_stops _ I _ _ Ej) as Hs. cbn in Hs |- *. destruct Hs as (S1 & S2 & S3). rewrite Fa. repeat split; auto.
+Qed.
+
+Lemma inv_stop_collect s j : Inv s -> Inv (set_stop s j (SWork (active s) (active s) None)).
+Proof.
+  intros I. apply inv_set_stop; auto. cbn. repeat split; auto.
+  - intros c Hc. destruct (c_active_ex _ I _ Hc) as (k & E). exists k. split; [exact E|]. apply (c_conn _ I _ _ E). exact Hc.
+  - apply incl_refl.
+Qed.
+
+Theorem step_inv_preserved s l s' : Inv s -> step s l = Some s' -> Inv s'.
+Proof.
+  intros I H. destruct l; cbn in H.
+  - (* Advance *) injection H as <-. apply inv_advance. exact I.
+  - (* Accept *) destruct (acc s) eqn:A; try discriminate. destruct (conns s c) eqn:E; try discriminate.
+    destruct (lclosed s); try discriminate. injection H as <-. apply inv_accept; auto.
+  - (* Filter *) destruct (acc s) eqn:A; try discriminate. destruct (conns s c) eqn:E; try discriminate.
+    destruct (k_ok c0); injection H as <-; [eapply inv_filter_ok; eauto|apply inv_filter_reject; auto].
+  - (* Register *) destruct (acc s) eqn:A; try discriminate. destruct (conns s c) eqn:E; try discriminate.
+    destruct ((0 <? maxc s)%Z && (maxc s <=? count s)%Z) eqn:L; injection H as <-;
+      [apply inv_register_reject; auto|apply inv_register; auto].
+  - (* Spawn *) destruct (acc s) eqn:A; try discriminate. destruct (conns s c) eqn:E; try discriminate.
+    injection H as <-. apply inv_spawn; auto.
+  - (* AcceptExit *) destruct (acc s) eqn:A; try discriminate. destruct (cancelled s || lclosed s); try discriminate.
+    injection H as <-. apply inv_accept_exit; auto.
+  - (* Activity *) destruct (conns s c) eqn:E; try discriminate. destruct (k_pc c0); try discriminate.
+    destruct (mem c (active s)); injection H as <-; [apply inv_activity; auto|exact I].
+  - (* Exit *) destruct (conns s c) eqn:E; try discriminate. destruct (k_pc c0) eqn:P; try discriminate.
+    injection H as <-. apply inv_exit; auto.
+  - (* UnregConn *) destruct (conns s c) eqn:E; try discriminate. destruct (k_pc c0) eqn:P; try discriminate.
+    destruct (unreg_step s c u) as [[s1 nu]|] eqn:U; try discriminate.
+    destruct (conns s1 c) eqn:E1; try discriminate. injection H as <-. eapply inv_unreg_conn; eauto.
+  - (* ConnDone *) destruct (conns s c) eqn:E; try discriminate. destruct (k_pc c0) eqn:P; try discriminate.
+    injection H as <-. apply inv_conn_done; auto.
+  - (* Tick *) destruct (reaper s) eqn:R; try discriminate. destruct (idle s =? 0); try discriminate.
+    injection H as <-. apply inv_tick; auto.
+  - (* RClose *) destruct (reaper s) as [| |T [|c todo] [u|]|] eqn:R; try discriminate.
+    injection H as <-. apply inv_rclose; auto.
+  - (* UnregReaper *) destruct (reaper s) as [| |T [|c todo] [u|]|] eqn:R; try discriminate.
+    destruct (unreg_step s c u) as [[s1 nu]|] eqn:U; try discriminate.
+    pose proof (inv_unreg_reaper s T c todo u s1 nu I R U) as J. destruct nu; injection H as <-; exact J.
+  - (* RTickDone *) destruct (reaper s) as [| |T [|c todo] [u|]|] eqn:R; try discriminate.
+    injection H as <-. apply inv_rtickdone; auto.
+  - (* ReaperExit *) destruct (reaper s) eqn:R; try discriminate. destruct (cancelled s); try discriminate.
+    injection H as <-. apply inv_reaper_exit; auto.
+  - (* StopCall *) destruct (stops s k) eqn:E; try discriminate. injection H as <-. apply inv_set_stop; auto. exact Logic.I.
+  - (* StopCancel *) destruct (stops s k) as [[]|] eqn:E; try discriminate. injection H as <-.
+    apply inv_set_flags. apply inv_set_stop; auto. exact Logic.I.
+  - (* StopCloseL *) destruct (stops s k) as [[]|] eqn:E; try discriminate. injection H as <-.
+    apply inv_set_flags. apply inv_set_stop; auto. exact Logic.I.
+  - (* StopCollect *) destruct (stops s k) as [[]|] eqn:E; try discriminate. injection H as <-. apply inv_stop_collect; auto.
+  - (* StopClose *) destruct (stops s k) as [[| | |sn [|c todo] [u|]| | |]|] eqn:E; try discriminate.
+    injection H as <-. apply inv_stop_close; auto.
+  - (* UnregStop *) destruct (stops s k) as [[| | |sn [|c todo] [u|]| | |]|] eqn:E; try discriminate.
+    destruct (unreg_step s c u) as [[s1 nu]|] eqn:U; try discriminate.
+    pose proof (inv_unreg_stop s k sn c todo u s1 nu I E U) as J. destruct nu; injection H as <-; exact J.
+  - (* StopCollected *) destruct (stops s k) as [[| | |sn [|c todo] [u|]| | |]|] eqn:E; try discriminate.
+    injection H as <-. apply inv_set_stop; auto. pose proof (c_stops _ I _ _ E) as Hs. cbn in Hs |- *.
+    destruct Hs as (S1 & S2 & S3). intros c Hc. split; auto. destruct (S3 c Hc) as [[]|]; auto.
+  - (* StopWait *) destruct (stops s k) as [[]|] eqn:E; try discriminate. destruct (wg s =? 0) eqn:W; try discriminate.
+    injection H as <-. apply inv_set_stop; auto. pose proof (c_stops _ I _ _ E) as Hs. cbn in Hs |- *.
+    split; [exact Hs|]. apply N.eqb_eq. exact W.
+  - (* StopTimeout *) destruct (stops s k) as [[]|] eqn:E; try discriminate.
+    injection H as <-. apply inv_set_stop; auto. exact (c_stops _ I _ _ E).
+Qed.
+
+Lemma run_inv tr : forall s s', Inv s -> run s tr = Some s' -> Inv s'.
+Proof.
+  induction tr as [|l tr IH]; cbn; intros s s' I H.
+  - injection H as <-. exact I.
+  - destruct (step s l) as [s1|] eqn:E; [|discriminate]. exact (IH _ _ (step_inv_preserved _ _ _ I E) H).
+Qed.
+
+Definition reachable (s : state) : Prop := exists mx idl tr, run (init mx idl) tr = Some s.
+Lemma reachable_Inv s : reachable s -> Inv s.
+Proof. intros (mx & idl & tr & H). exact (run_inv tr _ _ (inv_init mx idl) H). Qed.
+
+(* ---------- second invariant: whoever is uncounted has had its socket closed ---------- *)
+Definition closed_c (s : state) (c : N) : Prop := exists k, conns s c = Some k /\ k_closed k = true.
+Definition must_be_closed (k : conn) : Prop :=
+  k_uncnt k = 1 \/ match k_pc k with KUnreg _ | KFin | KDone | KRejected => True | _ => False end.
+Record Inv2 (s : state) : Prop := {
+  d_conn : forall c k, conns s c = Some k -> must_be_closed k -> k_closed k = true;
+  d_reaper : forall T c todo u, reaper s = RWork T (c :: todo) (Some u) -> closed_c s c;
+  d_stop : forall j sn c todo u, stops s j = Some (SWork sn (c :: todo) (Some u)) -> closed_c s c }.
+
+Lemma inv2_init mx idl : Inv2 (init mx idl).
+Proof.
+  constructor; cbn; try (intros; discriminate). intros. destruct (idl =? 0); discriminate.
+Qed.
+
+(* effect of one unregister sub-step on the fields Inv2 talks about *)
+Lemma unreg_effect s c u s1 nu : unreg_step s c u = Some (s1, nu) ->
+  reaper s1 = reaper s /\ stops s1 = stops s /\
+  (forall x kx', conns s1 x = Some kx' -> exists kx, conns s x = Some kx /\ k_closed kx' = k_closed kx /\
+       k_pc kx' = k_pc kx /\ (k_uncnt kx' = k_uncnt kx \/ x = c)) /\
+  (forall x kx, conns s x = Some kx -> exists kx', conns s1 x = Some kx' /\ k_closed kx' = k_closed kx).
+Proof.
+  unfold unreg_step. destruct (conns s c) as [k|] eqn:E; [|discriminate].
+  assert (G : forall k', k_closed k' = k_closed k -> k_pc k' = k_pc k ->
+     (forall x kx', fset (conns s) c k' x = Some kx' -> exists kx, conns s x = Some kx /\ k_closed kx' = k_closed kx /\
+       k_pc kx' = k_pc kx /\ (k_uncnt kx' = k_uncnt kx \/ x = c)) /\
+     (forall x kx, conns s x = Some kx -> exists kx', fset (conns s) c k' x = Some kx' /\ k_closed kx' = k_closed kx)).
+  { intros k' Hc Hp. split.
+    - intros x kx' Ex. apply fset_cases in Ex. destruct Ex as [[-> ->]|[Hne Ex]]; eauto 8.
+    - intros x kx Ex. destruct (N.eq_dec x c) as [->|Hne]; [rewrite fset_eq|rewrite fset_neq by exact Hne]; eauto.
+      exists k'. split; [reflexivity|]. congruence. }
+  assert (G0 : (forall x kx', conns s x = Some kx' -> exists kx, conns s x = Some kx /\ k_closed kx' = k_closed kx /\
+       k_pc kx' = k_pc kx /\ (k_uncnt kx' = k_uncnt kx \/ x = c)) /\
+     (forall x kx, conns s x = Some kx -> exists kx', conns s x = Some kx' /\ k_closed kx' = k_closed kx)) by (split; eauto 8).
+  destruct u.
+  - intros H. injection H as <- <-. tauto.
+  - destruct (k_once k); intros H; try discriminate; injection H as <- <-; proj; [|tauto].
+    split; [reflexivity|split; [reflexivity|]]. apply G; reflexivity.
+  - destruct (mem c (active s)); intros H; injection H as <- <-; proj;
+      (split; [reflexivity|split; [reflexivity|]]); apply G; reflexivity.
+Qed.
+
+Lemma inv2_rebuild s s' : Inv2 s ->
+  (forall x k', conns s' x = Some k' ->
+     k_closed k' = true \/ ~ must_be_closed k' \/
+     (exists k, conns s x = Some k /\ k_closed k' = k_closed k /\ k_pc k' = k_pc k /\ k_uncnt k' = k_uncnt k)) ->
+  (forall x, closed_c s x -> closed_c s' x) ->
+  (forall T c todo u, reaper s' = RWork T (c :: todo) (Some u) -> reaper s = RWork T (c :: todo) (Some u) \/ closed_c s' c) ->
+  (forall j sn c todo u, stops s' j = Some (SWork sn (c :: todo) (Some u)) ->
+     stops s j = Some (SWork sn (c :: todo) (Some u)) \/ closed_c s' c) ->
+  Inv2 s'.
+Proof.
+  intros [D1 D2 D3] Hc Hm Hr Hs. constructor.
+  - intros x k' Ex M. destruct (Hc x k' Ex) as [H|[H|(k & Ek & C & P & U)]]; [exact H|contradiction|].
+    rewrite C. apply (D1 x k Ek). unfold must_be_closed in *. rewrite <- P, <- U. exact M.
+  - intros T c todo u R. destruct (Hr _ _ _ _ R) as [H|H]; [apply Hm; eapply D2; eauto|exact H].
+  - intros j sn c todo u E. destruct (Hs _ _ _ _ _ E) as [H|H]; [apply Hm; eapply D3; eauto|exact H].
+Qed.
+
+Lemma unreg_inv2 s c u s1 nu : Inv2 s -> closed_c s c -> unreg_step s c u = Some (s1, nu) ->
+  Inv2 s1 /\ (forall x, closed_c s x -> closed_c s1 x).
+Proof.
+  intros I2 Cc H. destruct (unreg_effect _ _ _ _ _ H) as (Er & Es & Back & Fwd).
+  assert (Hm : forall x, closed_c s x -> closed_c s1 x).
+  { intros x (k & E & C). destruct (Fwd _ _ E) as (k' & E' & C'). exists k'. split; [auto|congruence]. }
+  split; [|exact Hm]. apply (inv2_rebuild s); auto.
+  - intros x k' Ex. destruct (Back _ _ Ex) as (k & Ek & C & P & [U| ->]).
+    + right. right. eauto.
+    + left. destruct Cc as (kc & Ec & Cl). congruence.
+  - intros. left. congruence.
+  - intros. left. congruence.
+Qed.
+
+Lemma closed_set_conn s c k' x : (forall k, conns s c = Some k -> k_closed k = true -> k_closed k' = true) ->
+  closed_c s x -> closed_c (set_conn s c k') x.
+Proof.
+  intros Hk (k & E & C). unfold closed_c. proj. destruct (N.eq_dec x c) as [->|Hne].
+  - rewrite fset_eq. exists k'. split; [reflexivity|]. eauto.
+  - rewrite fset_neq by exact Hne. eauto.
+Qed.
+Lemma closed_close_conn s c x : closed_c s x -> closed_c (close_conn s c) x.
+Proof.
+  intros H. unfold close_conn. destruct (conns s c) eqn:E; [|exact H]. apply closed_set_conn; auto.
+Qed.
+Lemma close_conn_closes s c : (exists k, conns s c = Some k) -> closed_c (close_conn s c) c.
+Proof. intros (k & E). unfold close_conn, closed_c. rewrite E. proj. rewrite fset_eq. eauto. Qed.
+
+(* steps that leave the connection table alone *)
+Lemma inv2_frame s s' : Inv2 s -> conns s' = conns s ->
+  (forall T c todo u, reaper s' = RWork T (c :: todo) (Some u) -> reaper s = RWork T (c :: todo) (Some u)) ->
+  (forall j sn c todo u, stops s' j = Some (SWork sn (c :: todo) (Some u)) -> stops s j = Some (SWork sn (c :: todo) (Some u))) ->
+  Inv2 s'.
+Proof.
+  intros I2 Ec Hr Hs. apply (inv2_rebuild s); auto.
+  - intros x k' Ex. right. right. rewrite Ec in Ex. eauto 8.
+  - intros x (k & E & C). exists k. rewrite Ec. auto.
+Qed.
+
+(* steps that replace one connection record *)
+Lemma inv2_set_conn s s' c k' : Inv2 s -> conns s' = fset (conns s) c k' -> reaper s' = reaper s -> stops s' = stops s ->
+  (k_closed k' = true \/ ~ must_be_closed k' \/
+   exists k, conns s c = Some k /\ k_closed k' = k_closed k /\ k_pc k' = k_pc k /\ k_uncnt k' = k_uncnt k) ->
+  (forall k, conns s c = Some k -> k_closed k = true -> k_closed k' = true) ->
+  Inv2 s'.
+Proof.
+  intros I2 Ec Er Es Hk Hm. apply (inv2_rebuild s); auto.
+  - intros x kx Ex. rewrite Ec in Ex. apply fset_cases in Ex. destruct Ex as [[-> ->]|[Hne Ex]]; [exact Hk|eauto 8].
+  - intros x (k & E & C). unfold closed_c. rewrite Ec. destruct (N.eq_dec x c) as [->|Hne].
+    + rewrite fset_eq. exists k'. split; [reflexivity|]. eauto.
+    + rewrite fset_neq by exact Hne. eauto.
+  - intros. left. congruence.
+  - intros. left. congruence.
+Qed.
+
+Theorem step_inv2_preserved s l s' : Inv s -> Inv2 s -> step s l = Some s' -> Inv2 s'.
+Proof.
+  intros I I2 H. assert (J2 := I2). destruct J2 as [D1 D2 D3].
+  destruct l; cbn in H.
+  - (* Advance *) injection H as <-. apply (inv2_frame s); auto.
+  - (* Accept *) destruct (acc s) eqn:A; try discriminate. destruct (conns s c) eqn:E; try discriminate.
+    destruct (lclosed s); try discriminate. injection H as <-.
+    apply (inv2_set_conn s _ c (new_conn ok)); auto; [|intros; congruence].
+    right. left. unfold must_be_closed. cbn. intros [Hm|[]]. discriminate.
+  - (* Filter *) destruct (acc s) eqn:A; try discriminate. destruct (conns s c) eqn:E; try discriminate.
+    destruct (k_ok c0); injection H as <-; [apply (inv2_frame s); auto|].
+    apply (inv2_set_conn s _ c (k_close (k_with_pc c0 KRejected))); auto.
+  - (* Register *) destruct (acc s) eqn:A; try discriminate. destruct (conns s c) eqn:E; try discriminate.
+    destruct ((0 <? maxc s)%Z && (maxc s <=? count s)%Z) eqn:L; injection H as <-.
+    + apply (inv2_set_conn s _ c (k_close (k_with_pc c0 KRejected))); auto.
+    + apply (inv2_set_conn s _ c (k_registered c0 (now s))); auto; [|intros k Ek; assert (k = c0) by congruence; subst; auto].
+      right. right. exists c0. auto.
+  - (* Spawn *) destruct (acc s) eqn:A; try discriminate. destruct (conns s c) eqn:E; try discriminate.
+    injection H as <-.
+    apply (inv2_set_conn s _ c (k_with_pc c0 KServing)); auto; [|intros k Ek; assert (k = c0) by congruence; subst; auto].
+    destruct (k_closed c0) eqn:Cl; [left; exact Cl|]. right. left. unfold must_be_closed. cbn.
+    intros [Hm|[]]. rewrite (D1 _ _ E) in Cl; [discriminate|]. left. exact Hm.
+  - (* AcceptExit *) destruct (acc s) eqn:A; try discriminate. destruct (cancelled s || lclosed s); try discriminate.
+    injection H as <-. apply (inv2_frame s); auto.
+  - (* Activity *) destruct (conns s c) eqn:E; try discriminate. destruct (k_pc c0); try discriminate.
+    destruct (mem c (active s)); injection H as <-; [|exact I2].
+    apply (inv2_set_conn s _ c (k_with_last c0 (now s))); auto; [|intros k Ek; assert (k = c0) by congruence; subst; auto].
+    right. right. exists c0. auto.
+  - (* Exit *) destruct (conns s c) eqn:E; try discriminate. destruct (k_pc c0) eqn:P; try discriminate.
+    injection H as <-. apply (inv2_set_conn s _ c (k_close (k_with_pc c0 (KUnreg U1)))); auto.
+  - (* UnregConn *) destruct (conns s c) eqn:E; try discriminate. destruct (k_pc c0) eqn:P; try discriminate.
+    destruct (unreg_step s c u) as [[s1 nu]|] eqn:U; try discriminate.
+    destruct (conns s1 c) eqn:E1; try discriminate. injection H as <-.
+    assert (Cc : closed_c s c) by (exists c0; split; [exact E|]; apply (D1 _ _ E); right; rewrite P; exact Logic.I).
+    destruct (unreg_inv2 s c u s1 nu I2 Cc U) as (J2 & Hm).
+    destruct (Hm c Cc) as (kc & Ekc & Clc). assert (kc = c1) by congruence. subst kc.
+    apply (inv2_set_conn s1 _ c (k_with_pc c1 (match nu with Some u' => KUnreg u' | None => KFin end))); auto.
+  - (* ConnDone *) destruct (conns s c) eqn:E; try discriminate. destruct (k_pc c0) eqn:P; try discriminate.
+    injection H as <-. apply (inv2_set_conn s _ c (k_with_pc c0 KDone)); auto; [|intros k Ek; assert (k = c0) by congruence; subst; auto].
+    left. cbn. apply (D1 _ _ E). right. rewrite P. exact Logic.I.
+  - (* Tick *) destruct (reaper s) eqn:R; try discriminate. destruct (idle s =? 0); try discriminate.
+    injection H as <-. apply (inv2_frame s); auto. proj. intros; discriminate.
+  - (* RClose *) destruct (reaper s) as [| |T [|c todo] [u|]|] eqn:R; try discriminate.
+    injection H as <-. apply (inv2_rebuild s); auto; proj.
+    + intros x k' Ex. unfold close_conn in Ex. destruct (conns s c) as [kc|] eqn:Ec; proj_in Ex; [|eauto 8].
+      apply fset_cases in Ex. destruct Ex as [[-> ->]|[Hne Ex]]; [left; reflexivity|eauto 8].
+    + intros x Hx. exact (closed_close_conn s c x Hx).
+    + intros T0 c0 todo0 u0 Eq. injection Eq as <- <- <- <-. right.
+      pose proof (c_reaper _ I) as Hr. unfold reaper_ok in Hr. rewrite R in Hr. destruct Hr as (_ & R2 & _).
+      destruct (R2 c (or_introl eq_refl)) as (kc & Ec & _). apply (close_conn_closes s c). eauto.
+    + intros j sn c0 todo0 u0 Ej. left. unfold close_conn in Ej. destruct (conns s c); exact Ej.
+  - (* UnregReaper *) destruct (reaper s) as [| |T [|c todo] [u|]|] eqn:R; try discriminate.
+    destruct (unreg_step s c u) as [[s1 nu]|] eqn:U; try discriminate.
+    pose proof (d_reaper _ I2 _ _ _ _ R) as Cc. destruct (unreg_inv2 s c u s1 nu I2 Cc U) as (J2 & Hm).
+    destruct (unreg_effect _ _ _ _ _ U) as (Er & Es & _ & _).
+    destruct nu; injection H as <-; apply (inv2_rebuild s1); auto; proj; try (intros; right; right; eauto 8).
+    + intros T0 c0 todo0 u1 Eq. injection Eq as <- <- <- <-. right. apply Hm. exact Cc.
+    + intros; discriminate.
+  - (* RTickDone *) destruct (reaper s) as [| |T [|c todo] [u|]|] eqn:R; try discriminate.
+    injection H as <-. apply (inv2_frame s); auto. proj. intros; discriminate.
+  - (* ReaperExit *) destruct (reaper s) eqn:R; try discriminate. destruct (cancelled s); try discriminate.
+    injection H as <-. apply (inv2_frame s); auto. proj. intros; discriminate.
+  - (* StopCall *) destruct (stops s k) eqn:E; try discriminate. injection H as <-. apply (inv2_frame s); auto.
+    proj. intros j sn c todo u Ej. apply fset_cases in Ej. destruct Ej as [[_ Ej]|[_ Ej]]; [discriminate|exact Ej].
+  - (* StopCancel *) destruct (stops s k) as [[]|] eqn:E; try discriminate. injection H as <-. apply (inv2_frame s); auto.
+    proj. intros j sn c todo u Ej. apply fset_cases in Ej. destruct Ej as [[_ Ej]|[_ Ej]]; [discriminate|exact Ej].
+  - (* StopCloseL *) destruct (stops s k) as [[]|] eqn:E; try discriminate. injection H as <-. apply (inv2_frame s); auto.
+    proj. intros j sn c todo u Ej. apply fset_cases in Ej. destruct Ej as [[_ Ej]|[_ Ej]]; [discriminate|exact Ej].
+  - (* StopCollect *) destruct (stops s k) as [[]|] eqn:E; try discriminate. injection H as <-. apply (inv2_frame s); auto.
+    proj. intros j sn c todo u Ej. apply fset_cases in Ej. destruct Ej as [[_ Ej]|[_ Ej]]; [discriminate|exact Ej].
+  - (* StopClose *) destruct (stops s k) as [[| | |sn [|c todo] [u|]| | |]|] eqn:E; try discriminate.
+    injection H as <-. apply (inv2_rebuild s); auto; proj.
+    + intros x k' Ex. unfold close_conn in Ex. destruct (conns s c) as [kc|] eqn:Ec; proj_in Ex; [|eauto 8].
+      apply fset_cases in Ex. destruct Ex as [[-> ->]|[Hne Ex]]; [left; reflexivity|eauto 8].
+    + intros x Hx. exact (closed_close_conn s c x Hx).
+    + intros T0 c0 todo0 u0 Eq. left. unfold close_conn in Eq. destruct (conns s c); exact Eq.
+    + intros j sn0 c0 todo0 u0 Ej. apply fset_cases in Ej. destruct Ej as [[-> Ej]|[Hne Ej]].
+      * pose proof (c_stops _ I _ _ E) as Hs. cbn in Hs. destruct Hs as (S1 & S2 & _).
+        destruct (S1 c (S2 c (or_introl eq_refl))) as (kc & Ec & _).
+        assert (c0 = c) by congruence. subst c0. right. apply (close_conn_closes s c). eauto.
+      * left. unfold close_conn in Ej. destruct (conns s c); exact Ej.
+  - (* UnregStop *) destruct (stops s k) as [[| | |sn [|c todo] [u|]| | |]|] eqn:E; try discriminate.
+    destruct (unreg_step s c u) as [[s1 nu]|] eqn:U; try discriminate.
+    pose proof (d_stop _ I2 _ _ _ _ _ E) as Cc. destruct (unreg_inv2 s c u s1 nu I2 Cc U) as (J2 & Hm).
+    destruct (unreg_effect _ _ _ _ _ U) as (Er & Es & _ & _).
+    destruct nu; injection H as <-; apply (inv2_rebuild s1); auto; proj; try (intros; right; right; eauto 8).
+    + intros j sn0 c0 todo0 u1 Ej. apply fset_cases in Ej. destruct Ej as [[-> Ej]|[Hne Ej]]; [|left; exact Ej].
+      injection Ej as <- <- <- <-. right. apply Hm. exact Cc.
+    + intros j sn0 c0 todo0 u1 Ej. apply fset_cases in Ej. destruct Ej as [[-> Ej]|[Hne Ej]]; [discriminate|left; exact Ej].
+  - (* StopCollected *) destruct (stops s k) as [[| | |sn [|c todo] [u|]| | |]|] eqn:E; try discriminate.
+    injection H as <-. apply (inv2_frame s); auto.
+    proj. intros j sn0 c todo u Ej. apply fset_cases in Ej. destruct Ej as [[_ Ej]|[_ Ej]]; [discriminate|exact Ej].
+  - (* StopWait *) destruct (stops s k) as [[]|] eqn:E; try discriminate. destruct (wg s =? 0) eqn:W; try discriminate.
+    injection H as <-. apply (inv2_frame s); auto.
+    proj. intros j sn0 c todo u Ej. apply fset_cases in Ej. destruct Ej as [[_ Ej]|[_ Ej]]; [discriminate|exact Ej].
+  - (* StopTimeout *) destruct (stops s k) as [[]|] eqn:E; try discriminate.
+    injection H as <-. apply (inv2_frame s); auto.
+    proj. intros j sn0 c todo u Ej. apply fset_cases in Ej. destruct Ej as [[_ Ej]|[_ Ej]]; [discriminate|exact Ej].
+Qed.
+
+(* ---------- third invariant: what Stop callers have already done to the flags ---------- *)
+Definition past_cancel (p : spc) : bool := match p with SCalled => false | _ => true end.
+Definition past_closel (p : spc) : bool := match p with SCalled | SCancelled => false | _ => true end.
+Definition Inv3 (s : state) : Prop :=
+  forall j p, stops s j = Some p -> (past_cancel p = true -> cancelled s = true) /\ (past_closel p = true -> lclosed s = true).
+
+Lemma unreg_flags s c u s1 nu : unreg_step s c u = Some (s1, nu) ->
+  cancelled s1 = cancelled s /\ lclosed s1 = lclosed s /\ stops s1 = stops s /\ maxc s1 = maxc s /\ idle s1 = idle s.
+Proof.
+  unfold unreg_step. destruct (conns s c); [|discriminate]. destruct u.
+  - intros H; injection H as <- <-; auto.
+  - destruct (k_once c0); intros H; try discriminate; injection H as <- <-; auto.
+  - destruct (mem c (active s)); intros H; injection H as <- <-; auto.
+Qed.
+
+Lemma inv3_frame s s' : Inv3 s ->
+  (cancelled s = true -> cancelled s' = true) -> (lclosed s = true -> lclosed s' = true) ->
+  (forall j p, stops s' j = Some p ->
+     (exists p0, stops s j = Some p0 /\ (past_cancel p = true -> past_cancel p0 = true) /\
+                 (past_closel p = true -> past_closel p0 = true)) \/
+     ((past_cancel p = true -> cancelled s' = true) /\ (past_closel p = true -> lclosed s' = true))) ->
+  Inv3 s'.
+Proof.
+  intros I3 Hc Hl Hs j p Ej. destruct (Hs j p Ej) as [(p0 & E0 & A & B)|H]; [|exact H].
+  destruct (I3 _ _ E0) as [F1 F2]. split; auto.
+Qed.
+Lemma close_conn_flags s c : cancelled (close_conn s c) = cancelled s /\ lclosed (close_conn s c) = lclosed s /\
+  stops (close_conn s c) = stops s /\ maxc (close_conn s c) = maxc s /\ idle (close_conn s c) = idle s.
+Proof. unfold close_conn. destruct (conns s c); auto. Qed.
+
+Lemma step_inv3 s l s' : Inv3 s -> step s l = Some s' -> Inv3 s'.
+Proof.
+  intros I3 H.
+  assert (Same : forall s1, cancelled s1 = cancelled s -> lclosed s1 = lclosed s -> stops s1 = stops s -> Inv3 s1).
+  { intros s1 A B C. apply (inv3_frame s); auto; try congruence. intros j p Ej. left. exists p. rewrite <- C. auto. }
+  assert (Upd : forall s1 k p0 p1, cancelled s1 = cancelled s -> lclosed s1 = lclosed s -> stops s k = Some p0 ->
+            stops s1 = fset (stops s) k p1 -> past_cancel p1 = past_cancel p0 -> past_closel p1 = past_closel p0 -> Inv3 s1).
+  { intros s1 k p0 p1 A B E0 C P1 P2. apply (inv3_frame s); auto; try congruence. intros j p Ej. left.
+    rewrite C in Ej. apply fset_cases in Ej. destruct Ej as [[-> ->]|[Hne Ej]]; [exists p0|exists p]; repeat split; auto; congruence. }
+  destruct l; cbn in H.
+  - injection H as <-. apply Same; reflexivity.
+  - destruct (acc s); try discriminate. destruct (conns s c); try discriminate. destruct (lclosed s) eqn:L; try discriminate.
+    injection H as <-. apply Same; auto.
+  - destruct (acc s); try discriminate. destruct (conns s c); try discriminate. destruct (k_ok c0); injection H as <-; apply Same; reflexivity.
+  - destruct (acc s); try discriminate. destruct (conns s c); try discriminate.
+    destruct ((0 <? maxc s)%Z && (maxc s <=? count s)%Z); injection H as <-; apply Same; reflexivity.
+  - destruct (acc s); try discriminate. destruct (conns s c); try discriminate. injection H as <-; apply Same; reflexivity.
+  - destruct (acc s); try discriminate. destruct (cancelled s || lclosed s); try discriminate. injection H as <-; apply Same; reflexivity.
+  - destruct (conns s c); try discriminate. destruct (k_pc c0); try discriminate.
+    destruct (mem c (active s)); injection H as <-; apply Same; reflexivity.
+  - destruct (conns s c); try discriminate. destruct (k_pc c0); try discriminate. injection H as <-; apply Same; reflexivity.
+  - destruct (conns s c); try discriminate. destruct (k_pc c0); try discriminate.
+    destruct (unreg_step s c u) as [[s1 nu]|] eqn:U; try discriminate. destruct (conns s1 c); try discriminate.
+    injection H as <-. destruct (unreg_flags _ _ _ _ _ U) as (A & B & C & _). apply Same; auto.
+  - destruct (conns s c); try discriminate. destruct (k_pc c0); try discriminate. injection H as <-; apply Same; reflexivity.
+  - destruct (reaper s); try discriminate. destruct (idle s =? 0); try discriminate. injection H as <-; apply Same; reflexivity.
+  - destruct (reaper s) as [| |T [|c todo] [u|]|]; try discriminate. injection H as <-.
+    destruct (close_conn_flags s c) as (A & B & C & _). apply Same; auto.
+  - destruct (reaper s) as [| |T [|c todo] [u|]|]; try discriminate.
+    destruct (unreg_step s c u) as [[s1 nu]|] eqn:U; try discriminate.
+    destruct (unreg_flags _ _ _ _ _ U) as (A & B & C & _). destruct nu; injection H as <-; apply Same; auto.
+  - destruct (reaper s) as [| |T [|c todo] [u|]|]; try discriminate. injection H as <-; apply Same; reflexivity.
+  - destruct (reaper s); try discriminate. destruct (cancelled s) eqn:Cn; try discriminate. injection H as <-; apply Same; proj; auto.
+  - (* StopCall *) destruct (stops s k) eqn:E; try discriminate. injection H as <-.
+    apply (inv3_frame s); auto. intros j p Ej. proj_in Ej. apply fset_cases in Ej. destruct Ej as [[-> ->]|[Hne Ej]].
+    + right. split; intros; discriminate.
+    + left. exists p. auto.
+  - (* StopCancel *) destruct (stops s k) as [[]|] eqn:E; try discriminate. injection H as <-.
+    apply (inv3_frame s); auto. intros j p Ej. proj_in Ej. proj. apply fset_cases in Ej. destruct Ej as [[-> ->]|[Hne Ej]].
+    + right. split; intros; [reflexivity|discriminate].
+    + left. exists p. auto.
+  - (* StopCloseL *) destruct (stops s k) as [[]|] eqn:E; try discriminate. injection H as <-.
+    apply (inv3_frame s); auto. intros j p Ej. proj_in Ej. proj. apply fset_cases in Ej. destruct Ej as [[-> ->]|[Hne Ej]].
+    + right. split; intros; [|reflexivity]. exact (proj1 (I3 _ _ E) eq_refl).
+    + left. exists p. auto.
+  - destruct (stops s k) as [[]|] eqn:E; try discriminate. injection H as <-. eapply (Upd _ k); [reflexivity|reflexivity|exact E|reflexivity|reflexivity|reflexivity].
+  - destruct (stops s k) as [[| | |sn [|c todo] [u|]| | |]|] eqn:E; try discriminate. injection H as <-.
+    destruct (close_conn_flags s c) as (A & B & C & _). eapply (Upd _ k); [exact A|exact B|exact E|proj; rewrite C; reflexivity|reflexivity|reflexivity].
+  - destruct (stops s k) as [[| | |sn [|c todo] [u|]| | |]|] eqn:E; try discriminate.
+    destruct (unreg_step s c u) as [[s1 nu]|] eqn:U; try discriminate.
+    destruct (unreg_flags _ _ _ _ _ U) as (A & B & C & _).
+    destruct nu; injection H as <-; (eapply (Upd _ k); [exact A|exact B|exact E|proj; rewrite C; reflexivity|reflexivity|reflexivity]).
+  - destruct (stops s k) as [[| | |sn [|c todo] [u|]| | |]|] eqn:E; try discriminate. injection H as <-. eapply (Upd _ k); [reflexivity|reflexivity|exact E|reflexivity|reflexivity|reflexivity].
+  - destruct (stops s k) as [[]|] eqn:E; try discriminate. destruct (wg s =? 0); try discriminate.
+    injection H as <-. eapply (Upd _ k); [reflexivity|reflexivity|exact E|reflexivity|reflexivity|reflexivity].
+  - destruct (stops s k) as [[]|] eqn:E; try discriminate. injection H as <-. eapply (Upd _ k); [reflexivity|reflexivity|exact E|reflexivity|reflexivity|reflexivity].
+Qed.
+
+Lemma step_consts s l s' : step s l = Some s' -> maxc s' = maxc s /\ idle s' = idle s.
+Proof.
+  intros H. destruct l; cbn in H; step_inv H; proj;
+    repeat match goal with U : unreg_step _ _ _ = Some _ |- _ => apply unreg_flags in U; destruct U as (? & ? & ? & ? & ?) end;
+    try (match goal with |- context [close_conn ?s ?c] => destruct (close_conn_flags s c) as (? & ? & ? & ? & ?) end);
+    auto.
+Qed.
+
+Lemma run_all tr : forall s s', Inv s -> Inv2 s -> Inv3 s -> run s tr = Some s' ->
+  Inv s' /\ Inv2 s' /\ Inv3 s' /\ maxc s' = maxc s /\ idle s' = idle s.
+Proof.
+  induction tr as [|l tr IH]; cbn; intros s s' I I2 I3 H.
+  - injection H as <-. auto.
+  - destruct (step s l) as [s1|] eqn:E; [|discriminate].
+    destruct (IH s1 s' (step_inv_preserved _ _ _ I E) (step_inv2_preserved _ _ _ I I2 E) (step_inv3 _ _ _ I3 E) H)
+      as (A & B & C & D & F).
+    destruct (step_consts _ _ _ E) as [M1 M2]. refine (conj A (conj B (conj C (conj _ _)))); [rewrite D; exact M1|rewrite F; exact M2].
+Qed.
+Lemma reachable_all mx idl tr s : run (init mx idl) tr = Some s ->
+  Inv s /\ Inv2 s /\ Inv3 s /\ maxc s = mx /\ idle s = idl.
+Proof.
+  intros H. apply (run_all tr (init mx idl)); auto.
+  - apply inv_init. - apply inv2_init. - intros j p E. discriminate.
+Qed.
+
+(* ---------- lemmas behind the C17 theorems ---------- *)
+(* a connection that is being served (goroutine in its loop, socket not closed by anybody) *)
+Definition served (s : state) (c : N) : Prop :=
+  exists k, conns s c = Some k /\ k_pc k = KServing /\ k_closed k = false.
+
+Lemma served_active s c : Inv s -> Inv2 s -> served s c -> In c (active s).
+Proof.
+  intros I I2 (k & E & P & Cl). pose proof (c_conn _ I _ _ E) as (B1 & B2 & B3 & B4 & B5 & B6 & B7).
+  rewrite P in B7. apply B3. split; [exact B7|].
+  destruct (N.eq_dec (k_uncnt k) 0) as [Z|Z]; [exact Z|]. assert (U : k_uncnt k = 1) by lia.
+  rewrite (d_conn _ I2 _ _ E) in Cl; [discriminate|]. left. exact U.
+Qed.
+
+Lemma bounded_lemma mx idl tr s : run (init mx idl) tr = Some s ->
+  NoDup (active s) /\ count s = Z.of_nat (length (active s)) /\
+  ((0 < mx)%Z -> (count s <= mx)%Z /\
+                 forall l, NoDup l -> (forall c, In c l -> served s c) -> (Z.of_nat (length l) <= mx)%Z).
+Proof.
+  intros R. destruct (reachable_all _ _ _ _ R) as (I & I2 & I3 & M & Il).
+  split; [exact (c_nodup _ I)|]. split; [exact (c_count _ I)|]. intros Hm.
+  assert (Cm : (count s <= mx)%Z) by (rewrite <- M; apply (c_max _ I); rewrite M; exact Hm).
+  split; [exact Cm|]. intros l ND Hl.
+  assert (Hi : incl l (active s)) by (intros c Hc; apply served_active; auto).
+  pose proof (NoDup_incl_length ND Hi) as L. pose proof (c_count _ I). lia.
+Qed.
+
+Lemma once_lemma s : reachable s -> forall c k, conns s c = Some k ->
+  k_cnt k <= 1 /\ k_uncnt k <= k_cnt k /\ (In c (active s) <-> k_cnt k = 1 /\ k_uncnt k = 0) /\
+  (k_pc k = KRejected -> k_cnt k = 0) /\
+  (k_pc k = KServing \/ (exists u, k_pc k = KUnreg u) -> k_cnt k = 1) /\
+  (k_pc k = KFin \/ k_pc k = KDone -> k_cnt k = 1 /\ k_uncnt k = 1).
+Proof.
+  intros R c k E. apply reachable_Inv in R. pose proof (c_conn _ R _ _ E) as (B1 & B2 & B3 & B4 & B5 & B6 & B7).
+  repeat split; auto; try tauto.
+  - intros P. rewrite P in B7. exact B7.
+  - intros [P|[u P]]; rewrite P in B7; exact B7.
+  - destruct H as [P|P]; rewrite P in B7; tauto.
+  - destruct H as [P|P]; rewrite P in B7; tauto.
+Qed.
+
+Lemma reap_lemma s : reachable s ->
+  tickT s <= now s /\
+  forall c k, In c (active s) -> conns s c = Some k -> tickT s <= k_last k + idle s /\ k_last k <= now s.
+Proof.
+  intros R. apply reachable_Inv in R. destruct (c_tick _ R) as [T1 T2]. split; [exact T1|].
+  intros c k Hc E. split; [eauto|]. exact (proj1 (proj2 (proj2 (proj2 (proj2 (c_conn _ R _ _ E)))))).
+Qed.
+(* the tick itself: when it completes its scan time becomes tickT, and everything it found idle is gone *)
+Lemma reap_tick_lemma s s' T : reachable s -> reaper s = RWork T [] None -> step s RTickDone = Some s' ->
+  tickT s' = T /\ active s' = active s /\
+  forall c k, In c (active s') -> conns s' c = Some k -> T - k_last k <= idle s'.
+Proof.
+  intros R Rp H. cbn in H. rewrite Rp in H. injection H as <-. proj. repeat split; auto.
+  intros c k Hc E. apply reachable_Inv in R. pose proof (c_reaper _ R) as Hr. unfold reaper_ok in Hr. rewrite Rp in Hr.
+  destruct Hr as (_ & _ & R3). destruct (R3 c k Hc E) as [H|[]]. proj. lia.
+Qed.
+
+Lemma stop_lemma s j sn : reachable s -> stops s j = Some (SRetOk sn) ->
+  active s = [] /\ count s = 0%Z /\ acc s = AExited /\ reaper_live s = false /\ live s = [] /\ wg s = 0 /\
+  (forall c k, conns s c = Some k -> k_live k = false) /\ cancelled s = true /\ lclosed s = true.
+Proof.
+  intros (mx & idl & tr & R) Ej. destruct (reachable_all _ _ _ _ R) as (I & I2 & I3 & _ & _).
+  pose proof (c_stops _ I _ _ Ej) as Hs. cbn in Hs. destruct Hs as [_ W].
+  pose proof (c_wg _ I) as Wg. rewrite W in Wg.
+  unfold b2n in Wg.
+  assert (A : acc_live s = false) by (destruct (acc_live s), (reaper_live s); try lia; reflexivity).
+  assert (Rl : reaper_live s = false) by (destruct (acc_live s), (reaper_live s); try lia; reflexivity).
+  assert (L : live s = []) by (destruct (live s); [reflexivity|cbn [length] in Wg; destruct (acc_live s), (reaper_live s); lia]).
+  assert (Ae : acc s = AExited) by (unfold acc_live in A; destruct (acc s); try discriminate; reflexivity).
+  assert (Act : active s = []).
+  { destruct (active s) as [|c l] eqn:Ea; [reflexivity|exfalso].
+    assert (Hc : In c (active s)) by (rewrite Ea; left; reflexivity).
+    destruct (c_active_ex _ I _ Hc) as (k & E). pose proof (c_conn _ I _ _ E) as (B1 & B2 & B3 & B4 & B5 & B6 & B7).
+    apply B3 in Hc. destruct Hc as [C1 U0]. rewrite L in B6. unfold k_live in B6.
+    destruct (k_pc k); try lia.
+    - destruct B7 as [_ B8]. apply B8 in C1. congruence.
+    - destruct B6 as [_ B6]. destruct (B6 eq_refl).
+    - destruct B6 as [_ B6]. destruct (B6 eq_refl). }
+  repeat split; auto.
+  - pose proof (c_count _ I) as Cn. rewrite Act in Cn. exact Cn.
+  - intros c k E. pose proof (c_conn _ I _ _ E) as (_ & _ & _ & _ & _ & B6 & _). rewrite L in B6.
+    destruct (k_live k); [destruct (proj2 B6 eq_refl)|reflexivity].
+  - apply (I3 _ _ Ej). reflexivity.
+  - apply (I3 _ _ Ej). reflexivity.
+Qed.
+
+(* Stop that gave up waiting (5 s timer) or is still waiting: every connection of its snapshot has been
+   closed and unregistered, whatever the goroutines are doing *)
+Lemma stop_partial_lemma s j sn : reachable s ->
+  stops s j = Some (SWaiting sn) \/ stops s j = Some (SRetTimeout sn) \/ stops s j = Some (SRetOk sn) ->
+  cancelled s = true /\ lclosed s = true /\
+  forall c, In c sn -> ~ In c (active s) /\ closed_c s c.
+Proof.
+  intros (mx & idl & tr & R) Ej. destruct (reachable_all _ _ _ _ R) as (I & I2 & I3 & _ & _).
+  assert (exists p, stops s j = Some p /\ past_closel p = true /\ forall c, In c sn -> registered_once s c /\ ~ In c (active s))
+    as (p & Ep & Pp & Hs).
+  { destruct Ej as [E|[E|E]]; pose proof (c_stops _ I _ _ E) as Hs; cbn in Hs; eexists; (split; [exact E|]); split; auto; tauto. }
+  split; [apply (I3 _ _ Ep); destruct p; auto; discriminate|]. split; [apply (I3 _ _ Ep); exact Pp|].
+  intros c Hc. destruct (Hs c Hc) as [(k & E & C1) Na]. split; [exact Na|].
+  exists k. split; [exact E|]. apply (d_conn _ I2 _ _ E). left. apply (not_active_uncounted s c k); auto.
+Qed.
+
+(* Stop after Stop: a second complete Stop call changes nothing but its own record *)
+Lemma stop_twice_lemma s j sn k : reachable s -> stops s j = Some (SRetOk sn) -> stops s k = None ->
+  exists s', run s [StopCall k; StopCancel k; StopCloseL k; StopCollect k; StopCollected k; StopWait k] = Some s' /\
+    stops s' k = Some (SRetOk []) /\ (forall x, x <> k -> stops s' x = stops s x) /\
+    active s' = active s /\ count s' = count s /\ conns s' = conns s /\ acc s' = acc s /\ reaper s' = reaper s /\
+    live s' = live s /\ wg s' = wg s /\ cancelled s' = cancelled s /\ lclosed s' = lclosed s /\ now s' = now s.
+Proof.
+  intros R Ej Ek. destruct (stop_lemma s j sn R Ej) as (A & C & Ac & Rl & L & W & _ & Cn & Lc).
+  cbn. rewrite Ek. cbn. rewrite fset_eq. cbn. rewrite fset_eq. cbn. rewrite fset_eq. cbn. rewrite A, fset_eq. cbn.
+  rewrite fset_eq. cbn. rewrite W. cbn. eexists. split; [reflexivity|]. cbn. rewrite fset_eq.
+  repeat split; auto. intros x Hx. rewrite !fset_neq by exact Hx. reflexivity.
+Qed.
+
+(* Close / Unexport *)
+Lemma nfs_close_lemma n : n_handles (nfs_close n) = [] /\ n_attr (nfs_close n) = [] /\ n_dir (nfs_close n) = [] /\
+  n_server (nfs_close n) = false /\ n_pool (nfs_close n) = false /\ nfs_close (nfs_close n) = nfs_close n.
+Proof. repeat split. Qed.
+Lemma nfs_unexport_lemma n : n_handles (nfs_unexport n) = [] /\ n_attr (nfs_unexport n) = [] /\ n_dir (nfs_unexport n) = [] /\
+  n_server (nfs_unexport n) = false /\ nfs_unexport (nfs_unexport n) = nfs_unexport n /\
+  nfs_close (nfs_unexport n) = nfs_close n /\ nfs_unexport (nfs_close n) = nfs_close n.
+Proof. repeat split. Qed.
+(* over histories: whatever happened before, and however often Close/Unexport are repeated afterwards *)
+Lemma nfs_history_lemma ops reps : 
+  let n := fold_left nfs_apply (ops ++ [NClose] ++ repeat NClose reps) nfs_init in
+  n_handles n = [] /\ n_attr n = [] /\ n_dir n = [] /\ n_server n = false /\ n_pool n = false.
+Proof.
+  cbn zeta. rewrite !fold_left_app. cbn [fold_left nfs_apply].
+  induction reps as [|r IH]; cbn; [repeat split|exact IH].
+Qed.
